@@ -217,7 +217,7 @@ YamlTbl ==
 Yaml(s)  == IF s \in DOMAIN YamlTbl THEN YamlTbl[s] ELSE StrV(s)       \* yaml_load:85-96
 Blank(s) == s \in {"", " "}
 \* the files that exist (and are readable) in the working directory of a run; their names are plain words
-ExistingFiles == {"file.txt"}
+ExistingFiles == {"file.txt", "-"}          \* ("-" stands for the standard input and is always accepted by a readable-file path)
 MetaKey == StrV("__path__")                        \* where a dict that was loaded from a file remembers the file
 
 \* _util.parse_value_or_config:127-152 + load_value:184-205 (simple_types=False): only null / list / dict
@@ -386,6 +386,7 @@ RECURSIVE AlgAdapt(_, _, _, _, _), AlgUnionLoop(_, _, _, _, _, _, _)
 AlgAdapt(t, val, orig, top, ser) ==
   CASE t.k = "any" ->                                                                    \* :762-769
          IF val.k = "enum" THEN Ok(IF ser THEN StrV(val.v[2]) ELSE val, {}, val)         \* adapt(val, type(val)): the Enum branch
+         ELSE IF val.k = "path" THEN Ok(IF ser THEN StrV(val.v) ELSE val, {}, val)       \* ... a registered type
          ELSE IF IsStr(val) THEN Ok(LoadSimple(val.v), {}, val) ELSE Ok(val, {}, val)    \* what is INSIDE a container is left alone
     [] t.k = "literal" ->                                                                \* :772-777
          LET mem(x) == \E i \in 1..Len(t.v) : PyEq(x, t.v[i])                            \* `val in subtypehints` uses ==
@@ -581,7 +582,7 @@ HasTuple(y) == CASE y.k = "tuple" -> TRUE
                  [] y.k = "dict" -> \E n \in 1..Len(y.v) : HasTuple(y.v[n][2])
                  [] OTHER -> FALSE
 TreeDevs(y) == (IF \E l \in Leaves(y) : IsStr(l) /\ l.v \in PlainFloatTexts THEN {"yamlFloatStr"} ELSE {})
-          \cup (IF \E l \in Leaves(y) : l.k \in {"enum", "exc"} THEN {"leftObject"} ELSE {})      \* neither dumper can write it
+          \cup (IF \E l \in Leaves(y) : l.k \in {"enum", "exc", "path"} THEN {"leftObject"} ELSE {})   \* neither dumper can write it
           \cup (IF \E l \in Leaves(y) : l.k = "set" THEN {"leftSet"} ELSE {})                      \* json cannot write it
           \cup (IF JsonKeyClash(y) THEN {"jsonKeyCollision"} ELSE {})
           \cup (IF HasTuple(y) THEN {"leftTuple"} ELSE {})                                         \* written as a list, read back as a list
